@@ -9,7 +9,7 @@
    Populate establishes) or nobox d (NoBox()).  cells_ok / cells_cover /
    plain_view are the facts Cell guarantees about the sizes it reports
    (checked on every generated case by the harness). *)
-From Tab Require Import Model.Text Spec.TextLayout Proofs.TextTop Proofs.TextGeom Proofs.TextProps.
+From Tab Require Import Model.Text Spec.TextLayout Proofs.TextTop Proofs.TextGeom Proofs.TextProps Proofs.TextZero.
 
 (* Populate leaves no glyph empty. *)
 Theorem populate_complete : forall d, complete (populate d).
@@ -114,6 +114,18 @@ Theorem c03_no_panic : forall W d v,
   1 <= v_ncols v -> wf_view v -> dec_ok d -> cells_ok W v -> text_render W d v <> Panic.
 Proof. exact no_panic_proof. Qed.
 Print Assumptions c03_no_panic.
+
+(* ... whatever the column count: at zero columns (no cell anywhere) a content
+   line is the right glyph alone or, boxless, empty. *)
+Theorem c03_no_panic_all : forall W d v,
+  wf_view v -> dec_ok d -> cells_ok W v -> text_render W d v <> Panic.
+Proof. exact text_no_panic_all. Qed.
+Print Assumptions c03_no_panic_all.
+
+Theorem c03_no_panic_zero_columns : forall W d v,
+  wf_view v -> dec_ok d -> v_ncols v = 0 -> text_render W d v <> Panic.
+Proof. exact text_no_panic_zero. Qed.
+Print Assumptions c03_no_panic_zero_columns.
 
 Theorem c03_empty_decoration_err : forall W d v,
   is_empty_decoration d = true -> text_render W d v = Err.
